@@ -244,13 +244,14 @@ func (c *tagCtx) cancel() {
 }
 
 type pmStreamSrc struct {
-	h      *hlog
-	n      int
-	pos    int
-	serr   bool
-	errSrc error
-	gates  map[int]*gate
-	closed int
+	h         *hlog
+	n         int
+	pos       int
+	serr      bool
+	errSrc    error
+	gates     map[int]*gate
+	closed    int
+	slowClose time.Duration
 }
 
 func (s *pmStreamSrc) Next(ctx context.Context) (int, error) {
@@ -284,6 +285,9 @@ func (s *pmStreamSrc) Next(ctx context.Context) (int, error) {
 func (s *pmStreamSrc) Close() {
 	s.h.add("srcclose-enter")
 	s.closed++
+	if s.slowClose > 0 {
+		time.Sleep(s.slowClose) // a Close that takes a while (cfg "slowclose_ms"): what is reported must not depend on it
+	}
 	s.h.add("srcclose-exit")
 }
 
@@ -320,7 +324,8 @@ func runMapStream(c *Case) *Obs {
 	for j := range nctxs {
 		nctxs[j] = newTagCtx(errNext)
 	}
-	src := &pmStreamSrc{h: h, n: n, serr: cfgBool(c, "serr"), errSrc: errSrc, gates: sgates}
+	src := &pmStreamSrc{h: h, n: n, serr: cfgBool(c, "serr"), errSrc: errSrc, gates: sgates,
+		slowClose: time.Duration(cfgInt(c, "slowclose_ms", 0)) * time.Millisecond}
 	f := func(ctx context.Context, x int) (int, error) {
 		k := x - pmBase
 		h.add("f-enter", k)
